@@ -353,9 +353,11 @@ func runOne(seed uint64, n int, out *bufio.Writer, tier string) (err error) {
 	mode := modes[r.Intn(len(modes))]
 	abl := map[int]string{}
 	tipBefore := *h.N.Tip().Hash()
+	pendBefore := map[int]string{}
 	for _, wi := range h.Wallets {
 		if wi != x {
 			abl[wi.Num] = h.BuildSign(wi)
+			pendBefore[wi.Num] = h.PendingCoinsOf(wi, e.pend)
 		}
 	}
 	if !e.remove(x, mode) {
@@ -368,6 +370,19 @@ func runOne(seed uint64, n int, out *bufio.Writer, tier string) (err error) {
 			e.stats["buildsign_ok_before"]++
 			if after := h.BuildSign(wi); after != "ok" && after != "nofunds" {
 				h.IEmit("V survivor-cannot-build-or-sign wallet %d after removing wallet %d: %s", wi.Num, x.Num, after)
+			}
+		}
+	}
+	for _, wi := range h.Wallets {
+		// a survivor's coins of PENDING transactions (also ones that pay the removed wallet too) stay readable:
+		// signing and explicit-input building need the pending transaction's record
+		if wi != x && tipBefore == *h.N.Tip().Hash() {
+			if pendBefore[wi.Num] != "" {
+				e.stats["survivors_with_pending_coins"]++
+			}
+			if after := h.PendingCoinsOf(wi, e.pend); after != pendBefore[wi.Num] {
+				h.IEmit("V survivor-pending-coins-changed wallet %d after removing wallet %d: before [%s] after [%s]", wi.Num, x.Num,
+					strings.ReplaceAll(pendBefore[wi.Num], " ", ","), strings.ReplaceAll(after, " ", ","))
 			}
 		}
 	}
@@ -519,6 +534,10 @@ func directed(k int, out *bufio.Writer) {
 		e.close()
 		out.Flush()
 	}()
+	if k >= pendingSharedFirst {
+		pendingShared(e, A, B, a1, b1, k-pendingSharedFirst)
+		return
+	}
 	if k >= reattachFirst {
 		reattach(e, A, B, a1, b1, k-reattachFirst)
 		return
@@ -902,6 +921,9 @@ func main() {
 			ks = append(ks, 7)
 		}
 		ks = append(ks, reattachScenarios(*tier)...)
+		for v := 0; v < pendingSharedCount; v++ {
+			ks = append(ks, pendingSharedFirst+v)
+		}
 		outs := make([][]byte, len(ks))
 		var wg sync.WaitGroup
 		sem := make(chan struct{}, *workers)
@@ -948,4 +970,69 @@ func envOr(k, d string) string {
 		return v
 	}
 	return d
+}
+
+// ---------------------------------------------------------------- pending transactions shared with the removed wallet
+const (
+	pendingSharedFirst = 100
+	pendingSharedCount = 4
+)
+
+// pendingShared: a PENDING transaction T touches both the wallet that is removed (B) and the survivor (A):
+//
+//	v%2 == 0  B pays A (funded by B's coin, change to B)      v%2 == 1  A pays B (funded by A's coin, change to A)
+//	v/2 == 0  plain removal                                   v/2 == 1  a restart between the removal steps
+//
+// After the removal A's coins of T must still be there and readable (signing / explicit-input building look the
+// pending transaction up), its spent coin must still be flagged; then T is mined and A's report is the chain's.
+func pendingShared(e *env, A, B *hist.WInfo, a1, b1 *hist.AddrInfo, v int) {
+	h, d := e.h, e.d
+	var t *wire.MsgTx
+	if v%2 == 0 {
+		t = hist.PayTx(e.pick(b1.Sh), []sim.Out{{Script: h.ScriptStd(b1), Value: 1}, {Script: h.ScriptStd(a1), Value: 200}})
+	} else {
+		t = hist.PayTx(e.pick(a1.Sh), []sim.Out{{Script: h.ScriptStd(a1), Value: 1}, {Script: h.ScriptStd(b1), Value: 200}})
+	}
+	rel, err := h.W.H.VerifReceiveTx(t)
+	if err != nil || !rel {
+		panic(fmt.Sprintf("pending transaction not accepted: relevant=%v err=%v", rel, err))
+	}
+	pend := []*wire.MsgTx{t}
+	before := h.PendingCoinsOf(A, pend)
+	if before == "" {
+		panic("the survivor has no coin of the pending transaction")
+	}
+	h.Query()
+	if v/2 == 0 {
+		e.plainRemove(B)
+	} else {
+		h.W.Barrier()
+		d.G.Arm()
+		must(h.W.WM.RemoveWallet(B.ID, B.Pass))
+		h.IEmit("R req %d %d ok", B.Num, d.Pass(B.Pass))
+		restarted := false
+		_, ok := d.RunRemove(B, func(kind string, step int, status string) string {
+			if kind == "remove" && step == 1 && !restarted {
+				restarted = true
+				return "restart"
+			}
+			return ""
+		}, nil, stepTimeout)
+		if !ok {
+			panic("removal did not finish")
+		}
+		d.Settle()
+	}
+	if after := h.PendingCoinsOf(A, pend); after != before {
+		h.IEmit("V survivor-pending-coins-changed wallet %d after removing wallet %d: before [%s] after [%s]", A.Num, B.Num,
+			strings.ReplaceAll(before, " ", ","), strings.ReplaceAll(after, " ", ","))
+	}
+	h.Listing()
+	h.RetireWallet(B)
+	h.Query()
+	// T confirms: the survivor's ledger is the chain's
+	e.attach(h.BlockWith(nil, []*wire.MsgTx{t}))
+	h.Query()
+	e.attach(h.BlockWith(nil, nil))
+	h.Query()
 }
